@@ -38,10 +38,10 @@ def tableDict (t : List (Strategy × List Nat × List Phrase)) : Dict :=
       | some e => e.2.2
       | none => [] }
 
-def parseSym (s : String) : Sym :=
+def cvParseSym (s : String) : Sym :=
   if s.startsWith "s" then .syl (natOf (s.drop 1).toString) else .chr (natOf (s.drop 1).toString)
 
-def parseGap (ch : Char) : Gap :=
+def cvParseGap (ch : Char) : Gap :=
   if ch == 'b' then .begin else if ch == 'k' then .brk else if ch == 'g' then .glue else .normal
 
 def parseInterval (s : String) : Interval :=
@@ -49,9 +49,9 @@ def parseInterval (s : String) : Interval :=
   | [a, b, p, h] => { start := natOf a, stop := natOf b, isPhrase := p == "1", text := hexToCps h }
   | _ => { start := 0, stop := 0, isPhrase := false, text := [] }
 
-def parseComp (syms gaps sels : String) : Composition :=
-  { symbols := (splitNonEmpty syms ",").map parseSym,
-    gaps := if gaps == "-" then [] else gaps.toList.map parseGap,
+def cvParseComp (syms gaps sels : String) : Composition :=
+  { symbols := (splitNonEmpty syms ",").map cvParseSym,
+    gaps := if gaps == "-" then [] else gaps.toList.map cvParseGap,
     selections := (splitNonEmpty sels ";").map parseInterval }
 
 /-- `0-2,2-4;0-1,1-4` → lists of `(start, stop)` -/
@@ -94,15 +94,15 @@ def alternativesCap : Nat := 20
 def encOk (alts : List (List Interval)) : String :=
   unwords (["ok", toString alts.length] ++ (alts.take alternativesCap).map encAlt)
 
-def engineOf (s : String) : Option Engine :=
+def cvEngineOf (s : String) : Option Engine :=
   if s == "chewing" then some .chewing else if s == "simple" then some .simple
   else if s == "fuzzy" then some .fuzzy else none
 
 def convExpected (fn : String) (args : List String) : Option String :=
-  match engineOf fn, args with
+  match cvEngineOf fn, args with
   | some eng, [_stream, table, syms, gaps, sels, kpaths] =>
     let d := tableDict (parseTable table)
-    let c := parseComp syms gaps sels
+    let c := cvParseComp syms gaps sels
     let impl := parseKPaths kpaths
     match eng with
     | .simple => some (encOk (convertSimple d c))
